@@ -9,6 +9,7 @@ import itertools
 import json
 
 from mon import refbufr as R
+from mon import handover
 from mon.compare import impl_subset, td_of, opsig, jsonable
 from mon.gen import cases
 from mon.gen import failures
@@ -121,6 +122,8 @@ def check_case(ctx, dec, enc, msg, origin, name=None, decc=None, Dtab=None):
     f = features(msg)
     ctx.evaluated(msg.bytes.hex(), bool(f), sample=dict(shape=name, ids=msg.ids, nsub=n,
                                                        lengths=[len(s.values) for s in msg.subsets]))
+    # what one subset shows (hierarchical view, query results) does not depend on which subsets were looked at before
+    handover.on_message(ctx, msg.bytes, spec, site=origin, p=0.25)
     if 'open' in f:
         ctx.count('open_operator_cases')
     if 'bitmap' in f:
